@@ -6,6 +6,8 @@ package main
 
 import (
 	"fmt"
+	"go/ast"
+	"go/constant"
 	"go/types"
 	"reflect"
 	"strings"
@@ -128,6 +130,12 @@ func allExpectedStructs() []string {
 }
 
 var schemaChecks = []schemaCheck{
+	{"schema.uuid.string", []string{"C18"}, uuidStringShape},
+	{"schema.unverified.free", []string{"C20"}, func(w *World) (bool, string) {
+		ok1, d1 := freeFunc(w, "DecodeUnverifiedBaseResponse")
+		ok2, d2 := freeFunc(w, "DecodeUnverifiedLogoutResponse")
+		return ok1 && ok2, d1 + "; " + d2
+	}},
 	{"schema.tags.flags", []string{"C04", "C01", "C10"}, tagsCheck([]string{repoModule + "/types.Response", repoModule + "/types.Assertion",
 		repoModule + "/types.LogoutResponse", repoModule + ".LogoutRequest"}, func(f string) bool { return f == "SignatureValidated" })},
 	{"schema.tags.decode", []string{"C08", "C01"}, tagsCheck(allExpectedStructs(), nil)},
@@ -174,6 +182,91 @@ var schemaChecks = []schemaCheck{
 		}
 		return true, "UnverifiedBaseResponse binds XMLName, ID, InResponseTo, Destination, Version, Issuer exactly as types.Response does"
 	}},
+}
+
+// uuidStringShape checks (syntactically) that (*UUID).String is a single fmt.Sprintf call with the canonical
+// 8-4-4-4-12 lower-case hex format over the slices [:4] [4:6] [6:8] [8:10] [10:] of the receiver.
+func uuidStringShape(w *World) (bool, string) {
+	for _, p := range w.Pkgs {
+		if p.PkgPath != repoModule+"/uuid" {
+			continue
+		}
+		for _, f := range p.Syntax {
+			for _, d := range f.Decls {
+				fd, ok := d.(*ast.FuncDecl)
+				if !ok || fd.Name.Name != "String" || fd.Recv == nil || fd.Body == nil {
+					continue
+				}
+				if len(fd.Body.List) != 1 {
+					return false, "String has more than one statement"
+				}
+				ret, ok := fd.Body.List[0].(*ast.ReturnStmt)
+				if !ok || len(ret.Results) != 1 {
+					return false, "String does not consist of a single return"
+				}
+				call, ok := ret.Results[0].(*ast.CallExpr)
+				if !ok {
+					return false, "String does not return a call"
+				}
+				sel, ok := call.Fun.(*ast.SelectorExpr)
+				if !ok || sel.Sel.Name != "Sprintf" {
+					return false, "String does not call Sprintf"
+				}
+				if obj, ok := p.TypesInfo.Uses[sel.Sel].(*types.Func); !ok || obj.Pkg() == nil || obj.Pkg().Path() != "fmt" {
+					return false, "Sprintf is not fmt.Sprintf"
+				}
+				if len(call.Args) != 6 {
+					return false, "Sprintf does not take the format and five slices"
+				}
+				tv, ok := p.TypesInfo.Types[call.Args[0]]
+				if !ok || tv.Value == nil || constant.StringVal(tv.Value) != "%x-%x-%x-%x-%x" {
+					return false, "format is not \"%x-%x-%x-%x-%x\""
+				}
+				want := [][2]string{{"", "4"}, {"4", "6"}, {"6", "8"}, {"8", "10"}, {"10", ""}}
+				for i, a := range call.Args[1:] {
+					se, ok := a.(*ast.SliceExpr)
+					if !ok {
+						return false, fmt.Sprintf("argument %d is not a slice expression", i+1)
+					}
+					lit := func(e ast.Expr) string {
+						if e == nil {
+							return ""
+						}
+						if tv, ok := p.TypesInfo.Types[e]; ok && tv.Value != nil {
+							return tv.Value.ExactString()
+						}
+						return "?"
+					}
+					lo, hi := lit(se.Low), lit(se.High)
+					if lo == "0" {
+						lo = ""
+					}
+					if hi == "16" {
+						hi = ""
+					}
+					if lo != want[i][0] || hi != want[i][1] {
+						return false, fmt.Sprintf("slice %d is [%s:%s], expected [%s:%s]", i+1, lo, hi, want[i][0], want[i][1])
+					}
+				}
+				return true, "(*UUID).String is fmt.Sprintf(\"%x-%x-%x-%x-%x\", u[:4], u[4:6], u[6:8], u[8:10], u[10:])"
+			}
+		}
+	}
+	return false, "(*UUID).String not found"
+}
+
+// freeFunc checks that a package-level function takes exactly one string and no receiver (no key / SP input).
+func freeFunc(w *World, name string) (bool, string) {
+	p := w.AllPkgs[repoModule]
+	o, ok := p.Scope().Lookup(name).(*types.Func)
+	if !ok {
+		return false, name + " is not a package-level function"
+	}
+	sig := o.Type().(*types.Signature)
+	if sig.Recv() != nil || sig.Params().Len() != 1 || !isString(sig.Params().At(0).Type()) {
+		return false, name + " takes more than the encoded message"
+	}
+	return true, name + " is a free function of the encoded message only"
 }
 
 func schemaObligations(w *World, prop string) []*Obligation {
